@@ -18,7 +18,7 @@ int g_steps;                 /* number of step calls so far */
  * enforcement form str_to_instr__e in line_contracts.h) */
 #include "line_contracts.h"
 int str_to_instr__c(struct instr *instr_data, const char unfiltered_str[], int *read_len)
-  __CPROVER_requires(__CPROVER_rw_ok(instr_data, sizeof(struct instr)) && __CPROVER_rw_ok(read_len, sizeof(int)))
+  __CPROVER_requires(__CPROVER_rw_ok(instr_data, sizeof(struct instr)) && REC_FRESH(instr_data) && __CPROVER_rw_ok(read_len, sizeof(int)))   /* every line starts from a zeroed record */
   __CPROVER_requires(IN_TEXT(unfiltered_str) && unfiltered_str < g_str + g_n && unfiltered_str[0] != '\0')
   __CPROVER_assigns(__CPROVER_object_whole(instr_data), *read_len)
   /* the line loop needs the range clauses only (the position clauses of STR_TO_INSTR_POST are what makes
